@@ -64,6 +64,9 @@ func runSendSpace(w *mc.Worker, sp *sendSpace, owns ownsFn, nontriv nontrivFn) {
 // runSendSpaceU: uvals, if given, is the value domain of the destination-side account
 // variables ($u*), which may include strings outside the account grammar.
 func runSendSpaceU(w *mc.Worker, sp *sendSpace, owns ownsFn, nontriv nontrivFn, uvals []string) {
+	if len(sp.CapVals) == 0 {
+		sp.CapVals = []*big.Int{H} // values of the $c* (cap / grant) variables: beyond 2^64
+	}
 	w.Stage(sp.Name, sp.Bounds, func() {
 		w.Outer(sp.Name+"/send", sp.Budget, func(o *mc.Explorer) {
 			mode := sp.Modes[o.Choose(len(sp.Modes))]
